@@ -294,6 +294,28 @@ func (s *Session) mergeGroup(arr []parked) parked {
 				}
 			}
 		}
+		{
+			names := map[string]Sort{}
+			for i := range arr {
+				for name, v := range frames[i][lvl].glocals {
+					names[name] = v.Sort
+				}
+			}
+			if len(names) > 0 {
+				nf.glocals = map[string]Term{}
+			}
+			for name, so := range names {
+				vals := make([]Term, n)
+				for i := range arr {
+					if v, ok := frames[i][lvl].glocals[name]; ok {
+						vals[i] = v
+					} else {
+						vals[i] = zeroTerm(so) // never assigned on that path
+					}
+				}
+				nf.glocals[name] = pickT(vals)
+			}
+		}
 		for i, d := range nf.defers {
 			nf.defers[i].fnv = remap(d.fnv)
 			na := make([]Value, len(d.args))
